@@ -986,9 +986,9 @@ Proof.
   apply (arun_rel c i (triples (services_changed (slots (tb s)) svs) 0) (triples (services_changed [] svs) 0) h);
     [apply trrel_reload_spec; assumption|exact Hh|].
   subst s1 s0. cbn [step_ev fst init]. constructor; cbn [reqs tb slots rules tmo]; try reflexivity.
-  - exact NI.
+  - unfold NoDupIds. rewrite map_cid_forget. exact NI.
   - constructor.
-  - rewrite Hl. exact I.
+  - rewrite (lookup_map_forget_none _ _ _ Hl). exact I.
 Qed.
 
 Theorem newcomer_after_reload_is_treated_as_by_fresh_daemon : forall c s svs rs t i h,
@@ -1085,9 +1085,9 @@ Proof.
   apply (own_rel c i (triples (services_changed (slots (tb s)) svs) 0) (triples (services_changed [] svs) 0) h);
     [apply trrel_reload_spec; assumption|].
   subst s1 s0. cbn [step_ev fst init]. constructor; cbn [reqs tb slots rules tmo]; try reflexivity.
-  - exact NI.
+  - unfold NoDupIds. rewrite map_cid_forget. exact NI.
   - constructor.
-  - rewrite Hl. exact I.
+  - rewrite (lookup_map_forget_none _ _ _ Hl). exact I.
 Qed.
 
 (* ====================================================================================================== *)
